@@ -35,16 +35,23 @@ ASSUMPTIONS = [
     "newly created symbol, and after a successful merge the source table is "
     "discarded and replaced by an empty one on the same scope (as InlineTrans "
     "does)",
-    "only the property text is judged: case-insensitive uniqueness per table, "
-    "lookup/lookup_with_tag = innermost enclosing scope (scopes read from "
-    "node.parent; nothing is judged across a ScopingNode that currently has no "
-    "table), generated names clash with nothing in self [+ enclosing scopes "
-    "unless shadowing=True] + other_table, merge adds every non-skipped symbol "
-    "once or leaves an equivalent container/import/unresolved symbol of that "
-    "name, renames only symbols whose name clashed, and any raising operation "
-    "leaves every table, tag map, argument list, link and symbol descriptor "
-    "unchanged; over-rejection, tag transfer on swap/merge and what happens to "
-    "skipped symbols are not judged",
+    "only the property text is judged: case-insensitive uniqueness per table "
+    "(read from symbol.name, not from the dict keys); lookup (with and without "
+    "scope_limit) and lookup_with_tag return the entry of the innermost "
+    "enclosing scope (scopes read from node.parent; nothing is judged across a "
+    "ScopingNode that currently has no table; a tag must map to a symbol of "
+    "the table holding the tag); names from next_available_name / new_symbol / "
+    "find_or_create[_tag] clash with nothing in self [+ enclosing scopes unless "
+    "shadowing=True] + other_table; merge leaves every own symbol in place, "
+    "adds every non-skipped symbol once or leaves an equivalent "
+    "container/import/unresolved symbol of that name, and renames only symbols "
+    "whose name clashed; any raising operation (incl. check_for_clashes) leaves "
+    "every table, tag map, argument list, table<->node link and symbol "
+    "descriptor unchanged; Routine.copy() yields scopes with the same two "
+    "guarantees. Over-rejection, tag transfer on swap/merge, the fate of "
+    "skipped symbols and argument-list consistency are not judged",
+    "copy_external_import is treated as a symbol-table operation (add of an "
+    "imported symbol with a tag)",
     "the Routine's own symbol 'r' is part of the initial state but never an "
     "operation target",
     "fingerprints are 128-bit BLAKE2 digests of the canonical form",
@@ -89,12 +96,20 @@ SPACES = [
          "remove": {},
      }},
     # merging a detached table into the Routine table
-    {"tag": "merge", "depth": {"quick": 4, "thorough": 6},
+    {"tag": "merge", "depth": {"quick": 4, "thorough": 5},
      "slots": [1, 3], "names": ["a", "A", "b"], "tags": [],
      "roots": ["a", "b"],
      "fam": {
          "add": {"kinds": ["loc", "arg", "unres", "imp", "cont", "contw"],
                  "tags": [None]},
+         "merge": {"skip": True},
+     }},
+    # merge renaming: case variants and names that collide with generated ones
+    {"tag": "merge_names", "depth": {"quick": 4, "thorough": 6},
+     "slots": [1, 3], "names": ["a", "A", "a_1", "a_2"], "tags": [],
+     "roots": ["a", "A"],
+     "fam": {
+         "add": {"kinds": ["loc", "arg"], "tags": [None]},
          "merge": {"skip": True},
      }},
     # merging below an outer scope that has wildcard imports / unresolved names
